@@ -14,7 +14,18 @@ double nondet_double(void);
 /* libm and Ellipsoid::N as stubs (assumed contracts): arbitrary finite values; N records its argument */
 double gv_N_arg, gv_N_ret; int gv_N_calls;
 static double gv_atan2(double y, double x) { double r = nondet_double(); __CPROVER_assume(r >= -M_PI && r <= M_PI); return r; }
-static double gv_sqrtd(double x) { double r = nondet_double(); __CPROVER_assume(r >= 0); return r; }
+int gv_sqrt_neg;   /* ghost: number of sqrt calls whose argument is negative or NaN (libm returns NaN for those) */
+static double gv_sqrtd(double x)
+{
+  double r = nondet_double();
+  __CPROVER_assert(x >= 0, "sqrt is called with a non-negative argument (a negative one yields NaN, which then becomes the latitude and the height)");
+  if (!(x >= 0)) { gv_sqrt_neg++; return 0.0 / 0.0; }
+  /* ASSUMED contract of a correctly rounded sqrt (IEEE 754): sqrt(x) lies between x and 1 (so sqrt(1 + t*t) >= 1), is
+     zero exactly for x == 0, and carries no negative sign for x > 0 */
+  __CPROVER_assume(x >= 1 ? (r >= 1 && r <= x) : (r >= x && r <= 1));
+  __CPROVER_assume((r == 0) == (x == 0) && (x == 0 || !__CPROVER_signd(r)));
+  return r;
+}
 static double gv_sin(double x) { double r = nondet_double(); __CPROVER_assume(r >= -1 && r <= 1); return r; }
 static double gv_cos(double x) { double r = nondet_double(); __CPROVER_assume(r >= -1 && r <= 1); return r; }
 static double Ellipsoid_N(const struct Ellipsoid *self, double b)
@@ -36,6 +47,7 @@ static double gv_fmul(double a, double b)
 //@ end
 
 //@ contract Ellipsoid_xyz2blh
+#ifndef GV_OFFAXIS
 __CPROVER_requires(x == 0 && y == 0 && z == z && z > -1e12 && z < 1e12)        /* a finite point on the axis of rotation */
 __CPROVER_requires(gv_N_calls == 0 && gv_N_ret > 0 && gv_N_ret < 1e8 && self->Ime2 > 0 && self->Ime2 <= 1)
 __CPROVER_assigns(*b__p, *l__p, *h__p, gv_N_arg, gv_N_calls)
@@ -44,11 +56,40 @@ __CPROVER_ensures(*b__p == (z > 0 ? M_PI / 2 : -M_PI / 2))
 __CPROVER_ensures(gv_N_calls == 1 && gv_N_arg == *b__p)
 /* height above the pole: |z| minus the polar radius (1-e^2) N(+-pi/2) -- the same for the north and the south pole */
 __CPROVER_ensures(*h__p == GV_ABS(z) - __CPROVER_uninterpreted_fmul(self->Ime2, gv_N_ret))
+#else
+/* OFF-AXIS (Bowring) branch, clause "including poles": for every finite point that is not on the axis -- in particular
+   the points blh2xyz produces for latitude +-pi/2, whose x, y are ~1e-10 instead of 0 -- no square root is taken of a
+   negative number, whatever sin, cos, atan2 and N(b) return within their ranges.  On the tree as found the refinement
+   step computed cos2_u = 1 - sin_u^2 with sin_u = (1-e^2) N(b)/B sin b, which rounds to 1 + eps at the poles of six
+   table ellipsoids: sqrt(negative) = NaN came back as latitude and height (demos/C18_pole_roundtrip.cpp). */
+__CPROVER_requires(x == x && y == y && z == z && !(x == 0 && y == 0))
+__CPROVER_requires(x > -1e12 && x < 1e12 && y > -1e12 && y < 1e12 && z > -1e12 && z < 1e12)
+__CPROVER_requires(self->B >= 1e5 && self->B <= self->A && self->A <= 1e8 && self->AB >= 1 && self->AB <= 2)
+__CPROVER_requires(self->Ime2 > 0 && self->Ime2 <= 1 && self->e2 >= 0 && self->e2 < 1 && self->e22 >= 0 && self->e22 < 1)
+__CPROVER_requires(gv_N_ret > 0 && gv_N_ret < 1e9 && gv_sqrt_neg == 0)
+__CPROVER_assigns(*b__p, *l__p, *h__p, gv_N_arg, gv_N_calls, gv_sqrt_neg)
+__CPROVER_ensures(gv_sqrt_neg == 0)
+#endif
 //@ entry Ellipsoid_xyz2blh
 GV_CANARY("Ellipsoid_xyz2blh entry");
 //@ end
 
 //@ harness
+#ifdef GV_OFFAXIS
+void h_xyz2blh_offaxis(void)
+{
+  struct Ellipsoid E;
+  double x = nondet_double(), y = nondet_double(), z = nondet_double(), b, l, h;
+  __CPROVER_assume(x == x && y == y && z == z && !(x == 0 && y == 0));
+  __CPROVER_assume(x > -1e12 && x < 1e12 && y > -1e12 && y < 1e12 && z > -1e12 && z < 1e12);
+  __CPROVER_assume(E.B >= 1e5 && E.B <= E.A && E.A <= 1e8 && E.AB >= 1 && E.AB <= 2);
+  __CPROVER_assume(E.Ime2 > 0 && E.Ime2 <= 1 && E.e2 >= 0 && E.e2 < 1 && E.e22 >= 0 && E.e22 < 1);
+  gv_N_calls = 0; gv_sqrt_neg = 0; gv_N_ret = nondet_double();
+  __CPROVER_assume(gv_N_ret > 0 && gv_N_ret < 1e9);
+  Ellipsoid_xyz2blh(&E, x, y, z, &b, &l, &h);
+  GV_CANARY("h_xyz2blh_offaxis end");
+}
+#else
 void h_xyz2blh_axis(void)
 {
   struct Ellipsoid E;
@@ -59,4 +100,5 @@ void h_xyz2blh_axis(void)
   Ellipsoid_xyz2blh(&E, x, y, z, &b, &l, &h);
   GV_CANARY("h_xyz2blh_axis end");
 }
+#endif
 //@ end
